@@ -341,4 +341,17 @@ def shape (font : Font) (text : List Nat) (fuel : Nat) : Except String (Option (
       | .ok none => .ok none
       | .ok (some c) => .ok (some (c, ci))
 
+/-- one step of `Segment::linkClusters`: `ls->sibling(s)` (left to right) or `s->sibling(ls)` (right to left) -/
+def linkStep (dir : Nat) (acc : Seg × Nat) (s : Nat) : Seg × Nat :=
+  if dir % 2 = 1 then ((sibling acc.1 (acc.1.slots.size + 1) s (some acc.2)).2, s)
+  else ((sibling acc.1 (acc.1.slots.size + 1) acc.2 (some s)).2, s)
+
+/-- `Segment::linkClusters(m_first, m_last)` (the last step of `Segment::finalise`): the bases of the stream are chained
+through their `sibling` pointers -/
+def linkClusters (seg : Seg) (dir : Nat) : Seg :=
+  let stream := ahead seg (2 * seg.slots.size + 8) seg.first
+  match stream.filter fun i => (seg.get i).parent.isNone with
+  | [] => seg
+  | b0 :: rest => ((b0 :: rest).foldl (linkStep dir) (seg, b0)).1
+
 end GrVerif.Pass
